@@ -110,7 +110,13 @@ class ShardResult:
         self.planned = 0
 
     def record(self, mod, case, out):
-        self.evals += 1
+        # a case may stand for several executions (e.g. one dataset shape x every fault
+        # point): `sub_evals` executions, of which `sub_nt` (distinct tags) were non-trivial
+        self.evals += int(out.get("sub_evals") or 1)
+        if out.get("sub_nt"):
+            h0 = common.case_hash(case)
+            for tag in out["sub_nt"]:
+                self.nt.add("%s:%s" % (h0, tag))
         for l in out.get("labels", ()):
             self.labels[l] += 1
         st = out["st"]
